@@ -49,6 +49,26 @@ CHECKS = {
             "compiler-accepted sources.",
             "Pygments' default input preprocessing is re-implemented from its documentation for get_tokens().",
             "DESIGN.md 3/C17"),
+    "C04": ("exploration",
+            "runtime monitoring: value round-trip monitor through the real decompilers and compilers in every printing context; literal decoding against own decoders",
+            "Hostile parameter values are planted into compiled templates, printed by the real decompilers at nesting depth 0-4 in "
+            "each printing context and compiled back by the real compilers; literal spellings are compiled and compared with my "
+            "decoders of the documented rules. Sampling of the value space; known losses are matched by an executable defect model.",
+            "Trusts vf/t2a.py decoders; offsets 2 and 4 of position marks are identified; dungeon mode 0..3 may return as constant.",
+            "DESIGN.md 3/C04"),
+    "C07": ("translation_validation",
+            "runtime monitoring: recorded round trip SsbScriptSsbDecompiler -> SsbScriptSsbCompiler compared in positional normal form",
+            "Random SSB routine sets and renumbered compiler outputs are spelled as SsbScript by the real decompiler and compiled "
+            "back; the positional normal form (ops, parameters, jump targets as routine/index, routine tables) must be identical.",
+            "String losses are only excused by the C04 defect model (K01) when the observed value is the predicted one.",
+            "DESIGN.md 3/C07"),
+    "C18": ("exploration",
+            "runtime monitoring: listing of the real PositionMarkVisitor compared with the printer's recorded positions; edit clause by recompilation",
+            "Programs rich in Position literals are printed in hostile layouts by my printer, which records where each literal "
+            "starts and ends; the real listing must agree in count, order, spans and values, and replacing a listed span by an "
+            "edited mark must change exactly that parameter of the recompiled program.",
+            "Trusts my renderer's line/column bookkeeping (cross-checked by the edit clause hitting the right text).",
+            "DESIGN.md 3/C18"),
 }
 
 NOT_YET = {
